@@ -40,8 +40,10 @@ CHECKS = {
     "C03": _c("Coq: kernel-checked exhaustive evaluation of all schedules with K<=2 link faults (the bound the property names) and K=3 on a small file + unbounded retry/NAK lemmas (C04/C06/C08) + correspondence",
               "PARTIAL proof (props/C03.v): BOUNDED INSTANCES - every schedule of <=2 link faults (drop/duplicate/delay of any PDU "
               "occurrence, either direction) on files of 0/5/9 bytes, both NAK modes, closure on/off, limits K+3, and every schedule "
-              "of 3 faults on a 5-byte file, evaluated inside the kernel on System.v: delivered, both users successful, both idle. The "
-              "general liveness theorem (all K, all interleavings) is not proved.", "6/C03"),
+              "of 3 faults on a 5-byte file, evaluated inside the kernel on System.v: delivered, both users successful, both idle. "
+              "UNBOUNDED for K = 1 (props/C03u.v): for every file, every position of ONE lost File Data PDU, immediate and deferred NAK "
+              "mode, the transfer is delivered byte-identical without API error. The general liveness theorem (all K, all fault "
+              "kinds, all interleavings) is not proved.", "6/C03"),
     "C04": _c("Coq proof (case analysis of the three retry procedures, for all limits N and intervals) + correspondence + virtual-clock oracle",
               "Proof (props/C04.v): EOF-awaiting-ACK, Finished-awaiting-ACK and the NAK procedure: nothing before expiry; expiry k<N "
               "re-sends the same PDU and counts; expiry N declares the limit fault exactly then; during a cancel exchange the limit "
@@ -99,7 +101,7 @@ CHECKS = {
     "C14": _c("Coq proof (dispatch lemmas for every condition/handler code on both handlers; table read from mib.py each run) + correspondence + callback oracle",
               "Proof (props/C14.v): declare_fault calls exactly the configured callback once with (id, condition, progress) and ignores / "
               "cancels (condition into EOF/Finished) / abandons (idle, nothing sent); no callback without transaction id; conditions "
-              "outside the table are refused, table unchanged; default table facts. Known findings F15, F22 (double declaration).",
+              "outside the table are refused, table unchanged; default table facts. Known finding F22 (NAK limit with IGNORE re-declared). Fixed in this round: F15, F25-F27 (ABANDON handler at the receiver).",
               "6/C14"),
     "C15": _c("Coq proof (gating invariant over both whole state machines by compositional reasoning + parameter lemmas) + correspondence + indication oracle",
               "Proof (props/C15.v): every event any call adds is gated by its switch (all inputs, all states); Metadata-Recv / "
